@@ -110,3 +110,13 @@ func Harness_C11_expireOneCollection() {
 	}
 	verifReach("done")
 }
+
+// C14: "through whichever entry point it was set": the remaining entry points that carry an
+// expiry (or clear it)
+func Harness_C14_update()            { stepUpdate(pC14) }
+func Harness_C14_setWithMeta()       { stepWithMeta(pC14, false) }
+func Harness_C14_updateXattrs()      { stepXattr(pC14, xUpdateXattrs) }
+func Harness_C14_writeTombstone()    { stepXattr(pC14, xWriteTombstone) }
+func Harness_C14_writeResurrection() { stepXattr(pC14, xWriteResurrection) }
+func Harness_C14_updateXattrDelBody() { stepXattr(pC14, xUpdateXattrDeleteBody) }
+func Harness_C14_remove()            { stepRemove(pC14, true) }
